@@ -22,6 +22,9 @@ CLAIMED = {
  'C14': dict(engine='symx', design='4/C14', technique='differential symbolic execution: the same bounded program on the same solver variables under configurations differing only in tensordot_policy / default_fusion / force_fusion / inserted consume_transpose()/copy(); z3 equality of dense results; contract_with_unroll vs ncon for every unroll spec and path',
    text='Eight program templates (tensordot chain, ncon with two orders, fuse->dot->fuse->unfuse with mode taken from the config, transpose->add, fuse->sub, dot->trace, dot->svd, dot->qr through contract stubs) are run under >= 7 configuration variants each (all 3 policies, hard/meta default and forced fusion, 4 materialisation patterns); all results must have equal charge, consistent legs and identical dense values for all input values. contract_with_unroll: contracted/output/both/two-contracted labels x sector / uniform(1,2,3) / intra-sector slicings x 3 contraction paths (+ compute_constants variant) against ncon.',
    note='Trusted: z3; LAPACK contracts for dot->svd/qr. Legs are compared up to charge sectors that hold no block (a hard-fusion history may remember such sectors, meta fusion does not; the dense values on the union are decided equal). Outside: programs outside the templates.'),
+ 'C15': dict(engine='symx', design='4/C15', technique='symbolic execution with before/after snapshots of every argument (structure, identity and term-by-term content of the data array); z3 decides whether any element of an argument can differ after the call; in-place API applied to copies/sources with fresh symbols',
+   text='~70 unary and ~22 binary public Tensor operations (incl. linalg through contract stubs, fusion with mismatched sectors, serialisation, swap_gate, fkron, block, ncon/einsum, all tensordot policies), 28 MPS/MPO operations (algebra, measurements, environments, norm/canonize on copies), Peps container copy/clone/shallow_copy/apply_gate_ arguments are executed once per covering-array row (symmetry x op x lazy state x dtype); every argument must be observationally unchanged for all input values; copy()/clone() results must be unaffected by set_block/item assignment/canonize_/orthogonalize_site_ on the source and vice versa.',
+   note='Trusted: z3; LAPACK contracts. Outside: torch autograd aliasing; iterative algorithms (dmrg_/tdvp_/ctmrg_); get_Schmidt_values/get_entropy; sequences of operations (single calls only in quick).'),
 }
 NA = {
  'C09': 'DMRG: outcome of iterated floating-point Krylov eigen-solves and LAPACK sweeps; a contract stub for eigs would assume the conclusion, chained LAPACK contracts need non-linear ideal reasoning z3/cvc5 do not finish (DESIGN 5)',
